@@ -1481,3 +1481,83 @@ func runLastOneWins(p *Program, c *Collector, a FuncRuleSpec) {
 		c.Ob(a.Props, "E7.last-one-wins", "lastonewins:"+strings.Join(a.Funcs, ","), Discharged, a.What+": no field of a package-level record is overwritten once per element of a list", "", true)
 	}
 }
+
+// ---------------------------------------------------------------------------------------------
+// read-only shared table: a package-level map that a constructor receives from its caller and keeps for look-ups (the
+// identifier table every file's listener is handed) is shared by all units: a callback that adds to it makes what later
+// files see depend on which files came before.
+type ReadOnlySpec struct {
+	Props  []string `json:"props"`
+	Funcs  []string `json:"funcs"`
+	Global string   `json:"global"` // "<rel pkg>.<var>"
+	What   string   `json:"what"`
+}
+
+func runReadOnlyGlobal(p *Program, c *Collector, ro ReadOnlySpec) {
+	key := "readonly:" + ro.Global
+	seen := false
+	var bad ssa.Instruction
+	for _, fn := range expandFuncs(p, c, ro.Funcs, ro.Props...) {
+		for _, b := range fn.Blocks {
+			for _, in := range b.Instrs {
+				switch x := in.(type) {
+				case *ssa.UnOp:
+					if g := loadedGlobal(x); g != nil && p.GlobalKey(g) == ro.Global {
+						seen = true
+					}
+				case *ssa.MapUpdate:
+					if g := loadedGlobal(x.Map); g != nil && p.GlobalKey(g) == ro.Global && bad == nil {
+						bad = in
+					}
+				case *ssa.Call:
+					if bi, ok := x.Call.Value.(*ssa.Builtin); ok && bi.Name() == "delete" && len(x.Call.Args) > 0 {
+						if g := loadedGlobal(x.Call.Args[0]); g != nil && p.GlobalKey(g) == ro.Global && bad == nil {
+							bad = in
+						}
+					}
+				}
+			}
+		}
+	}
+	switch {
+	case bad != nil:
+		c.Ob(ro.Props, "E7.read-only-table", key, Violated, ro.What+": "+shortFn(p.FuncKey(bad.Parent()))+" writes into "+ro.Global+", the table handed to every unit's listener: what a later file sees depends on the files before it", p.InstrPos(bad), false)
+	case !seen:
+		c.Ob(ro.Props, "E7.read-only-table", key, Undecided, ro.What+": "+ro.Global+" is not read in the named functions any more (anchor lost)", "", false)
+	default:
+		c.Ob(ro.Props, "E7.read-only-table", key, Discharged, "the table is only looked up", "", true)
+	}
+}
+
+// ---------------------------------------------------------------------------------------------
+// a path is no pattern: filepath.Glob / filepath.Match read `[`, `*`, `?` and `\` in their pattern argument as syntax. A pattern
+// put together from a directory the user named (Join(dir, "*")) matches nothing when that directory is called app[v2].
+func runPathAsPattern(p *Program, c *Collector, a FuncRuleSpec) {
+	n := 0
+	for _, fn := range expandFuncs(p, c, a.Funcs, a.Props...) {
+		k := 0
+		for _, b := range fn.Blocks {
+			for _, in := range b.Instrs {
+				call, ok := in.(*ssa.Call)
+				if !ok || call.Call.StaticCallee() == nil {
+					continue
+				}
+				name := fullFuncName(call.Call.StaticCallee())
+				if name != "path/filepath.Glob" && name != "path/filepath.Match" && name != "path.Match" {
+					continue
+				}
+				k++
+				n++
+				key := "pathpattern:" + p.FuncKey(fn) + " " + name + "#" + strconv.Itoa(k)
+				if _, isC := constString(call.Call.Args[0]); isC {
+					c.Ob(a.Props, "E7.path-as-pattern", key, Discharged, "the pattern is a constant", p.InstrPos(call), true)
+				} else {
+					c.Ob(a.Props, "E7.path-as-pattern", key, Violated, a.What+": "+shortFn(p.FuncKey(fn))+" builds the pattern of "+name+" from a path: `[`, `*`, `?` in a directory name are read as pattern syntax and the directory matches nothing", p.InstrPos(call), false)
+				}
+			}
+		}
+	}
+	if n == 0 {
+		c.Ob(a.Props, "E7.path-as-pattern", "pathpattern:"+strings.Join(a.Funcs, ","), Discharged, a.What+": directories are listed, not matched against patterns", "", true)
+	}
+}
